@@ -83,6 +83,15 @@ type wMeta struct {
 	OldToNew   string      `json:"oldToNew"`
 }
 
+type wOpWire struct {
+	Op   string `json:"op"`
+	Wire struct {
+		Kind    int    `json:"kind"`
+		Control bool   `json:"control"`
+		Body    string `json:"body"`
+	} `json:"wire"`
+}
+
 type wRec struct {
 	Mode   string   `json:"mode"`
 	Max    int      `json:"max"`
@@ -93,6 +102,7 @@ type wRec struct {
 	Old    *wRes    `json:"old"`
 	HK     *wHK     `json:"hk"`
 	Meta   *wMeta   `json:"meta"`
+	OpW    *wOpWire `json:"opw"`
 }
 
 func recHash(raw []byte) string {
